@@ -332,20 +332,28 @@ def explore(harness, vc_factory, opts=None):
         except (PathAbort, Unsupported):
             raise
         except Exception as e:
+            # a library function that was handed a symbolic proxy it cannot digest (timedelta(seconds=SNum), int(SNum) inside C code, ...)
+            # is a limit of this engine, not a property of the code: undecided, never a violation
+            if isinstance(e, (TypeError, ValueError, AttributeError, NotImplementedError)) and any(
+                    n in str(e) for n in ("SNum", "SBool", "GVec", "LVec", "LMat", "LState", "SymSet", "SymDict", "GFrame", "_Box")):
+                res.unsupported.append(f"{type(e).__name__}: {str(e)[:160]} (path {c.decisions})")
+                res.paths += 1
+                e = None
             # the real code (or the contract) raised on this path: obligation "<harness>.noraise" = path infeasible
-            import traceback as _tb
-            tb = _tb.extract_tb(e.__traceback__)
-            where = next((f"{f.filename.split('/')[-1]}:{f.lineno}" for f in reversed(tb) if "/resonaate/" in f.filename), "?")
-            import os as _os
-            if _os.environ.get("PYVC_DEBUG"):
-                _tb.print_exc()
-            sym.set_ctx(c)
-            try:
-                c._flush_axioms()
-            finally:
-                sym.set_ctx(None)
-            c.obls.append(Obl(NORAISE, list(c.pc), z3.BoolVal(False), None, list(c.decisions), f"{type(e).__name__}: {str(e)[:120]} at {where}"))
-            res.paths += 1
+            if e is not None:
+                import traceback as _tb
+                tb = _tb.extract_tb(e.__traceback__)
+                where = next((f"{f.filename.split('/')[-1]}:{f.lineno}" for f in reversed(tb) if "/resonaate/" in f.filename), "?")
+                import os as _os
+                if _os.environ.get("PYVC_DEBUG"):
+                    _tb.print_exc()
+                sym.set_ctx(c)
+                try:
+                    c._flush_axioms()
+                finally:
+                    sym.set_ctx(None)
+                c.obls.append(Obl(NORAISE, list(c.pc), z3.BoolVal(False), None, list(c.decisions), f"{type(e).__name__}: {str(e)[:120]} at {where}"))
+                res.paths += 1
         finally:
             sym.set_ctx(None)
         for o in c.obls:
